@@ -64,7 +64,56 @@ impl BitFieldQueue {
     { unimplemented!() }
     /// add_many_to_queue_values(iter of (epoch, sector number)): only the queue's AMT changes
     #[verifier::external_body]
-    pub fn add_many_to_queue_values(&mut self, values: Vec<(ChainEpoch, u64)>) -> (r: anyhow::Result<()>)
+    pub fn add_many_to_queue_values(&mut self, values: std::vec::IntoIter<(ChainEpoch, u64)>) -> (r: anyhow::Result<()>)
         ensures final(self).quant == old(self).quant, final(self).amt.root0 == old(self).amt.root0,
     { unimplemented!() }
 }
+
+// ---- opaque protocol formulas and proof-type tables (policy.rs / monies.rs / fvm_shared): SOME value, a deterministic function of the inputs ----
+/// monies.rs pre_commit_deposit_for_power (fixed-point projection of the expected reward): SOME amount
+pub uninterp spec fn pcd_spec(reward: FilterEstimate, network_qa: FilterEstimate, qa_sector_power: int) -> int;
+#[verifier::external_body]
+pub fn pre_commit_deposit_for_power(reward_estimate: &FilterEstimate, network_qa_power_estimate: &FilterEstimate, qa_sector_power: &StoragePower) -> (r: TokenAmount)
+    ensures r@ == pcd_spec(*reward_estimate, *network_qa_power_estimate, qa_sector_power@)
+{ unimplemented!() }
+/// policy.rs qa_power_max(size) = size * VERIFIED_DEAL_WEIGHT_MULTIPLIER / QUALITY_BASE_MULTIPLIER: a function of the sector size
+pub uninterp spec fn qa_power_max_spec(size: SectorSize) -> int;
+#[verifier::external_body]
+pub fn qa_power_max(size: SectorSize) -> (r: StoragePower) ensures r@ == qa_power_max_spec(size) { unimplemented!() }
+/// policy.rs sector_deals_max: SOME bound
+#[verifier::external_body]
+pub fn sector_deals_max(policy: &Policy, size: SectorSize) -> (r: u64) { unimplemented!() }
+/// policy.rs max_prove_commit_duration: a table lookup on the proof type (None for unknown types); a function of (policy, proof)
+pub uninterp spec fn mpcd_spec(policy: Policy, proof: RegisteredSealProof) -> Option<ChainEpoch>;
+#[verifier::external_body]
+pub fn max_prove_commit_duration(policy: &Policy, proof: RegisteredSealProof) -> (r: Option<ChainEpoch>) ensures r == mpcd_spec(*policy, proof) { unimplemented!() }
+impl RegisteredSealProof {
+    /// fvm_shared: the Window PoSt proof type implied by a seal proof type (Err for unknown types)
+    #[verifier::external_body]
+    pub fn registered_window_post_proof(self) -> (r: Result<RegisteredPoStProof, String>) { unimplemented!() }
+}
+impl CompactCommD {
+    /// commd.rs get_cid: the declared CID, or the zero-data CommD of the proof type (zero_commd: a table; Err for unknown types)
+    #[verifier::external_body]
+    pub fn get_cid(&self, seal_proof: RegisteredSealProof) -> (r: Result<Cid, ActorError>) { unimplemented!() }
+}
+/// `v.into_iter().enumerate()` materialised as the list of (index, item) pairs, in order (Verus has no iterator adapters): the body IS the
+/// original expression, collected
+#[verifier::external_body]
+pub fn vx_into_enumerate<T>(v: Vec<T>) -> (r: Vec<(usize, T)>)
+    ensures r@.len() == v@.len(), forall|i: int| 0 <= i < r@.len() ==> (#[trigger] r@[i]).0 == i && r@[i].1 == v@[i]
+{ v.into_iter().enumerate().collect() }
+pub mod emit {
+    use super::*;
+    /// emit.rs sector_precommitted: builds and emits one actor event — counted, no other effect
+    #[verifier::external_body]
+    pub fn sector_precommitted(rt: &mut Rt, sector: SectorNumber) -> (r: Result<(), ActorError>)
+        ensures r.is_ok() ==> *final(rt) == (Rt { events: Ghost(old(rt).events@ + 1), ..*old(rt) }), r.is_err() ==> *final(rt) == *old(rt)
+    { unimplemented!() }
+}
+/// `info.control_addresses.iter().chain(&[info.worker, info.owner])` (iterator adapters are outside Verus' subset) collected: the control
+/// addresses, the worker and the owner — the body IS the original expression, collected
+#[verifier::external_body]
+pub fn vx_control_worker_owner(info: &MinerInfo) -> (r: Vec<Address>)
+    ensures r@.to_set() =~= info.control_addresses@.to_set().insert(info.worker).insert(info.owner)
+{ info.control_addresses.iter().chain(&[info.worker, info.owner]).copied().collect() }
